@@ -116,8 +116,8 @@ theorem initCursor_room (e : Env) (σ : St) (t : Nat) (wf : WF e) : (initCursor 
   · split
     · split
       · exact zero
-      · exact hc _ (Int.le_trans (by omega) (earliestStart_ge σ _ _))
-    · exact hc _ (earliestStart_ge σ _ _)
+      · exact hc _ (Int.le_trans (by omega) (earliestStart_ge e σ _ _))
+    · exact hc _ (earliestStart_ge e σ _ _)
   · split <;> exact zero
 
 variable {e : Env} {P : St → Prop} {T : Nat → Prop}
